@@ -34,16 +34,19 @@ pub fn placements(len: u16) -> Vec<(u16, &'static str)> {
   let mut v = Vec::new();
   for &at in cands.iter() {
     let last = at as u32 + len as u32 - 1;
+    // the first byte must be executable; operand bytes may lie behind the end of ROM (in
+    // video RAM) or behind the end of high RAM (the IE register): they are fetched
+    // through the bus like any other byte
     let ok = match at {
-      0x0000..=0x7fff => last <= 0x7fff,
+      0x0000..=0x7fff => last <= 0x8001,
       0xc000..=0xdfff => last <= 0xdfff,
-      0xff80..=0xfffe => last <= 0xfffe,
+      0xff80..=0xfffe => last <= 0xffff,
       _ => false,
     };
     if !ok {
       continue;
     }
-    let straddle = (at <= 0x3fff && last >= 0x4000) || (at <= 0xcfff && last >= 0xd000);
+    let straddle = (at <= 0x3fff && last >= 0x4000) || (at <= 0xcfff && last >= 0xd000) || (at <= 0x7fff && last >= 0x8000) || (at <= 0xfffe && last >= 0xffff);
     v.push((at, if straddle { "straddle" } else { "" }));
   }
   v
